@@ -714,12 +714,17 @@ inductive Sign where
   | neg | zero | pos
   deriving Repr, DecidableEq
 
-/-- `SdrFullSensorRecord.lin` applied to x of the given sign, by linearisation code (sdr.py L_*):
-which Python exception, if any (`math.log(0)`, `1.0 / 0`, `math.sqrt(-1)`; magnitudes within float range) -/
+/-- `SdrFullSensorRecord.lin` applied to x of the given sign, by the linearisation byte of the record (sdr.py
+L_*): which exception, if any.  The property `lin` looks `linearization & 0x7f` up in a table of twelve functions
+(codes 0..11) BEFORE the function is applied: every other code - 70h "non-linear" and 71h..7Fh "OEM non-linear"
+included - is a `KeyError` that `lin` turns into `pyipmi.errors.DecodingError`, whatever x is.  For the twelve:
+`math.log(0)`, `1.0 / 0`, `math.sqrt(-1)` (magnitudes within float range). -/
 def linRaises (code : Nat) (s : Sign) : Option String :=
-  if code == 1 || code == 2 || code == 3 then (if s == .pos then none else some "ValueError")
-  else if code == 7 then (if s == .zero then some "ZeroDivisionError" else none)
-  else if code == 10 then (if s == .neg then some "ValueError" else none)
+  let c := code % 128
+  if 12 ≤ c then some "DecodingError"
+  else if c == 1 || c == 2 || c == 3 then (if s == .pos then none else some "ValueError")
+  else if c == 7 then (if s == .zero then some "ZeroDivisionError" else none)
+  else if c == 10 then (if s == .neg then some "ValueError" else none)
   else none
 
 def catchOf (h : HandlerShape) (cmd : String) : List String :=
@@ -736,6 +741,13 @@ def cellRaises (caught : List String) (code : Nat) (s : Sign) : Option String :=
 /-- the classes a handler must catch around the conversion of a reading / threshold -/
 def catchesArithmetic (caught : List String) : Bool :=
   caught.any (fun c => pyCatches c "ValueError") && caught.any (fun c => pyCatches c "ZeroDivisionError")
+
+/-- … and, for a record whose linearisation is none of the twelve formulas (70h..7Fh: a non-linear sensor has
+no formula at all), the `DecodingError` of `lin` -/
+def catchesDecoding (caught : List String) : Bool := caught.any (fun c => pyCatches c "DecodingError")
+
+/-- everything the conversion of a reading / threshold of a conforming full sensor record may raise -/
+def catchesConversion (caught : List String) : Bool := catchesArithmetic caught && catchesDecoding caught
 
 /-! ## which sensor the printing handlers read
 
